@@ -335,3 +335,106 @@ Example C07_broadcast_consumes_fcb_instance :
      LInfo (mk_info 1 (Some BOptional) FData) [7];
      LTx [5; 100; 5; 0; 1; 0; 0; 4; 39; 112]].
 Proof. vm_compute. reflexivity. Qed.
+
+(* ====================================================================================================
+   Session half of C07 (model Outstation/Session.v; proofs in Outstation/SessionC12Proofs.v):
+   an outstation executes and answers application fragments only from its configured master address
+   unless told to accept any master, and it transmits nothing in reply to a broadcast.
+   `Reach AP cfg s`: s is reached from start-up by steps whose environment answers satisfy AP.
+   ==================================================================================================== *)
+From Dnp3V Require Import Outstation.Session Outstation.SessionLemmas_c12 Outstation.SessionC12Proofs.
+Import ListNotations.
+
+(* ---------- 6. fragments of a foreign master ------------------------------------------------------- *)
+
+(* With a configured master (o_any_master = false) and `from` another address, in EVERY state on_rx
+   only advances the frame counter; when idle, the idle loop is entered at its unsolicited stage as
+   after any wake-up.  The right-hand side does not mention from, bc, bytes or the digest: nothing is
+   executed, answered, recorded or called back because of the fragment.  (At the boundaries of a step
+   s_pending s = None - C12_no_pending_at_step_boundaries - so `upd_pending _ None` changes nothing.) *)
+Theorem C07_foreign_master_inert : forall cfg s from bc bytes d,
+  o_any_master cfg = false -> from <> o_master cfg ->
+  on_rx cfg s from bc bytes d =
+  match s_control s with
+  | CIdle => idle_run 31 cfg St2 (upd_pending (upd_frame_id s ((s_frame_id s + 1) mod 4294967296)) None)
+  | _ => (upd_frame_id s ((s_frame_id s + 1) mod 4294967296), [])
+  end.
+Proof. exact foreign_master_inert. Qed.
+Print Assumptions C07_foreign_master_inert.
+
+(* the whole step equals the step with the fragment replaced by nothing: frame counter, then (when
+   idle) the idle loop from its unsolicited stage, then the 1 ms settle time in which deadlines fire *)
+Theorem C07_foreign_master_step : forall cfg s from bc bytes d answers,
+  o_any_master cfg = false -> from <> o_master cfg ->
+  ostep cfg s (ERx from bc bytes d) answers =
+  let s0 := upd_frame_id (upd_answers s answers) ((s_frame_id s + 1) mod 4294967296) in
+  let '(s1, o1) := match s_control s with
+                   | CIdle => idle_run 31 cfg St2 (upd_pending s0 None)
+                   | _ => (s0, [])
+                   end in
+  let '(s2, o2) := advance 64 cfg s1 (s_now s1 + settle_ms) in (s2, o1 ++ o2).
+Proof. exact foreign_master_step. Qed.
+Print Assumptions C07_foreign_master_step.
+
+Theorem C07_foreign_master_indistinguishable : forall cfg s answers from bc bytes d from' bc' bytes' d',
+  o_any_master cfg = false -> from <> o_master cfg -> from' <> o_master cfg ->
+  ostep cfg s (ERx from bc bytes d) answers = ostep cfg s (ERx from' bc' bytes' d') answers.
+Proof. exact foreign_master_indistinguishable. Qed.
+Print Assumptions C07_foreign_master_indistinguishable.
+
+(* from a reachable state on_rx transmits no solicited response (function code 129) for it *)
+Theorem C07_foreign_master_no_reply : forall AP cfg s answers from bc bytes d,
+  Reach AP cfg s -> o_any_master cfg = false -> from <> o_master cfg ->
+  Forall (fun o => match o with OTx _ b => nth 1 b 0 = 130 | _ => True end)
+         (snd (on_rx cfg (upd_answers s answers) from bc bytes d)).
+Proof. exact foreign_master_no_reply. Qed.
+Print Assumptions C07_foreign_master_no_reply.
+
+(* ---------- 7. broadcasts --------------------------------------------------------------------------- *)
+
+(* For a fragment that arrived by broadcast - CONFIRM, malformed objects, unknown function code,
+   invalid header flags included - from any reachable state on_rx transmits no solicited response.
+   (The idle loop may send an UNSOLICITED response, function code 130, e.g. after a broadcast
+   ENABLE_UNSOLICITED.) *)
+Theorem C07_no_solicited_tx_for_broadcast : forall AP cfg s answers from m bytes d,
+  Reach AP cfg s ->
+  Forall (fun o => match o with OTx _ b => nth 1 b 0 = 130 | _ => True end)
+         (snd (on_rx cfg (upd_answers s answers) from (Some m) bytes d)).
+Proof. exact no_solicited_tx_for_broadcast. Qed.
+Print Assumptions C07_no_solicited_tx_for_broadcast.
+
+(* a broadcast CONFIRM completes neither a solicited nor an unsolicited confirm wait *)
+Theorem C07_broadcast_confirms_nothing : forall cfg s from m bytes d,
+  (forall se dl, exists oc o, sol_wait_fragment cfg s se dl from (Some m) bytes d = (oc, o) /\
+                              forall x, oc <> SoConfirmed x) /\
+  (forall resp fid, snd (fst (unsol_wait_fragment cfg s resp from (Some m) bytes d fid)) = None).
+Proof. exact broadcast_confirms_nothing. Qed.
+Print Assumptions C07_broadcast_confirms_nothing.
+
+(* ---------- non-vacuity (session) ------------------------------------------------------------------- *)
+
+Definition c07_session_cfg : ocfg :=
+  {| o_master := 1; o_any_master := false; o_unsol := true; o_broadcast := true;
+     o_confirm_ms := 5000; o_select_ms := 5000; o_retries := Some 2%nat; o_retry_delay_ms := 1000;
+     o_max_controls := Some 4; o_sol_tx := 249%nat; o_delay_ms := 0; o_cold := None; o_warm := None;
+     o_wtime := 0; o_freeze := 0 |}.
+
+(* start-up (null unsolicited, confirmed); then a READ from master 9 (foreign): nothing; the same
+   READ from master 1: answered; a broadcast WRITE and a broadcast with invalid header flags: executed
+   resp. dropped, never answered; a foreign READ while a solicited confirm is awaited: nothing *)
+Example C07_session_instance :
+  orun c07_session_cfg (fst (ostart c07_session_cfg 0 0 0 [AEvinfo false false false false]))
+    [ (ERx 1 None [208; 0] (DOk 208 0 RvOk (ObjOk [] [])), []);
+      (ERx 9 None [193; 1; 60; 1; 6] (DOk 193 1 RvOk (ObjOk [] [true])), [AIin2 0; AWrite true true [7]; AEvinfo false false false false]);
+      (ERx 1 (Some BOptional) [194; 2; 80; 1] (DOk 194 2 RvOk (ObjOk [WIin [(7, false)]] [])), []);
+      (ERx 1 (Some BMandatory) [195; 2] (DOk 195 2 RvBad (ObjOk [] [])), []);
+      (ERx 1 None [193; 1; 60; 1; 6] (DOk 193 1 RvOk (ObjOk [] [true])), [AIin2 0; AWrite true true [7]; AEvinfo false false false false]);
+      (ERx 9 None [193; 1; 60; 1; 6] (DOk 193 1 RvOk (ObjOk [] [true])), []) ]
+  = [ [OInfo (IUnsolConfirmed 0)];
+      [];
+      [OInfo (IIdleRequest 2 2); OInfo IClearRestart; OInfo (IBroadcast 2 0 0)];
+      [];
+      [OInfo (IIdleRequest 1 1); ODb DbSelect; ODb DbWrite; ODb DbEvinfo; OTx 1 [225; 129; 1; 0; 7];
+       OInfo (IEnterSolWait 1)];
+      [] ].
+Proof. vm_compute. reflexivity. Qed.
